@@ -63,6 +63,10 @@ Section Machine.
         | None => (mkG (g_log g) (g_poisoned g) ((c, cell_init c) :: g_cells g), ORead (cell_init c), held)
         end
     | SReadEnv => (g, ORead env, held)
+    | SLogStart =>
+        (* `CURRENT_LOG.write().unwrap_or_else(|e| e.into_inner())`, then the slot is overwritten: a log left over
+           from a compilation that panicked is discarded; works on a poisoned lock too (the poison flag stays) *)
+        (mkG (Some ([], O)) (g_poisoned g) (g_cells g), ONone, held)
     | _ =>
         if g_poisoned g then (g, OPanic, held)      (* .write().unwrap() / .read().unwrap() on a poisoned lock *)
         else
@@ -87,11 +91,6 @@ Section Machine.
                   | Some (es, O) => (mkG (Some (es, O)) true (g_cells g), OPanic, h)   (* `suppress_count -= 1` underflows under the lock *)
                   | None => (g, ONone, h)
                   end
-              end
-          | SLogStart =>
-              match g_log g with
-              | Some _ => (mkG (g_log g) true (g_cells g), OPanic, held)            (* assert!(lock.is_none()) under the lock *)
-              | None => (mkG (Some ([], O)) false (g_cells g), ONone, held)
               end
           | SLogFinish => (mkG None false (g_cells g), ONone, held)
           | _ => (g, ONone, held)
